@@ -4,7 +4,7 @@ import copy
 import random
 import signal
 
-from . import gen, obs, ops, ops_io, ops_nx, ops_paths, ops_stats, oracles, simfs
+from . import gen, obs, ops, ops_conf, ops_io, ops_nx, ops_paths, ops_stats, oracles, simfs
 from .core import Abort, Hang, Precondition, Violation, World, call, exc_class
 
 # ---------------------------------------------------------------------------- focus table
@@ -42,6 +42,8 @@ FOCUS = {
     'C19': dict(roots=[(0, 1), (1, 1), (0, 1), (1, 1), (0, 0), (1, 0)], armed=['c03', 'c04', 'c05'], faults=['F-ORD', 'F-BULK'],
                 hist=['shadow'], derive=['nx:blocked', 'nx:blocked', 'nx:any', 'nx:any', 'nx:frozen', 'freeze'],
                 p_derive=[0.3, 0.5], p_node=[0.1, 0.2], level='fault_enumeration', steps_cap=24),
+    'C20': dict(roots=[(0, 1)], armed=[], faults=['F-ORD'], hist=[], small=True, selfloops=[0.0],
+                derive=['probe_conf', 'probe_conf', 'probe_conf', 'slice'], p_derive=[0.3, 0.5], p_node=[0.0, 0.1]),
     'C16': dict(roots=[(0, 1), (1, 1)], armed=['c03', 'c04', 'c05', 'attrs'], scope='derived', faults=['F-ORD'],
                 hist=[], derive=['convert', 'alias'], p_derive=[0.15, 0.3], p_node=[0.1, 0.25]),
     'C07': dict(roots=[(0, 1), (1, 1), (0, 0), (1, 0)], armed=['c07'], level='fault_enumeration', variants=True,
@@ -120,6 +122,8 @@ def execute(world, op):
         out = ops_paths.do_probe_dag(world, rep, op)
     elif kind == 'probe_stats':
         out = ops_stats.do_probe_stats(world, rep, op)
+    elif kind == 'probe_conf':
+        out = ops_conf.do_probe_conf(world, rep, op)
     elif kind == 'nx':
         out = ops_nx.do_nx(world, rep, op)
     elif kind == 'freeze':
@@ -243,6 +247,8 @@ def gen_step(world, rng, cfg):
             op = gen.gen_compact(rng, cfg)
         elif d == 'probe_stats':
             op = {'op': 'probe_stats'}
+        elif d == 'probe_conf':
+            op = gen.gen_probe_conf(rng, rep, cfg)
         elif d == 'freeze':
             if not rep.m.frozen and rng.random() < 0.3:
                 op = {'op': 'freeze'}
